@@ -816,6 +816,16 @@ func replay() {
 	if err != nil {
 		engine.HarnessError("cannot load replay: %v", err)
 	}
+	var sc streamCase
+	if json.Unmarshal(rp.Case, &sc) == nil && sc.Part == "stream" {
+		for i := 0; i < 5; i++ {
+			for _, f := range judgeStream(sc) {
+				rep.Fail(engine.Failure{Class: f.class, Detail: f.detail, Case: sc}, 0)
+			}
+			rep.Eval(1)
+		}
+		rep.Finish()
+	}
 	var c Case
 	if err := json.Unmarshal(rp.Case, &c); err != nil {
 		engine.HarnessError("bad case: %v", err)
@@ -873,6 +883,7 @@ func main() {
 	selftest()
 	partEnc()
 	partDec()
+	runStreams()
 	rep.Extra("source_kinds", srcNames[:])
 	rep.Extra("writer_kinds", wrNames[:])
 	rep.Extra("WriteToBytes_buffers", []string{"16 bytes pre-filled (bytes beyond the returned count must not change)", "window of exactly the encoding's length at offset 3 of a 24-byte array (no panic, neighbours unchanged)"})
